@@ -417,7 +417,7 @@ theorem reoptTransportC_no_fault (asr : Bool) (caps dems : List Int) (fc : List 
     rw [h2]
 
 
-/-! ### the `float` costs of `reoptimize` are finite on the C07 domain (models without `sqrtf`) -/
+/-! ### the `float` costs of `reoptimize` are finite on the C07 domain -/
 
 lemma fin32_ok (site : String) (q B : Rat) (h0 : 0 ≤ q) (hB : q ≤ B) (hfit : 2 * B ≤ fltMax) :
     ∃ v, fin32 site q = .ok v ∧ 0 ≤ v ∧ v ≤ 2 * B := by
@@ -448,11 +448,6 @@ lemma fin32_ok_abs (site : String) (q B : Rat) (hB : rabs q ≤ B) (hfit : 2 * B
     unfold fin32
     rw [if_pos (by linarith)]
 
-/-- the cost models evaluated without `sqrtf` -/
-def CostModel.sqrtFree : CostModel → Bool
-  | .L2 => false
-  | _ => true
-
 /-- the models to which `GlobalPlacer` applies the quadratic penalty (`place_global.cpp`: L1, L2, LInf) -/
 def CostModel.linear : CostModel → Bool
   | .L1 | .L2 | .LInf => true
@@ -463,10 +458,10 @@ lemma rabs_le_of {q B : Rat} (h1 : -B ≤ q) (h2 : q ≤ B) : rabs q ≤ B := by
 
 lemma rmax_le' {a b B : Rat} (ha : a ≤ B) (hb : b ≤ B) : rmax a b ≤ B := rmax_le ha hb
 
-lemma normC_finite (m : CostModel) (hm : m.sqrtFree = true) (x y : Rat)
+lemma normC_finite (m : CostModel) (x y : Rat)
     (hx : rabs x ≤ 4294967296) (hy : rabs y ≤ 4294967296) :
     ∃ d, normC m x y = .ok d ∧ 0 ≤ d ∧
-      d ≤ (if m.linear then 17179869184 else 590295810358705651712) := by
+      d ≤ (if m.linear then 137438953472 else 590295810358705651712) := by
   have hf : fltMax = 340282346638528859811704183484516925440 := rfl
   have ax := rabs_nonneg x
   have ay := rabs_nonneg y
@@ -475,7 +470,22 @@ lemma normC_finite (m : CostModel) (hm : m.sqrtFree = true) (x y : Rat)
     obtain ⟨v, hv, v0, vB⟩ := fin32_ok "norm L1: std::abs(x) + std::abs(y) is inf" (rabs x + rabs y) 8589934592
       (by linarith) (by linarith) (by rw [hf]; norm_num)
     exact ⟨v, hv, v0, by simp [CostModel.linear]; linarith⟩
-  · simp [CostModel.sqrtFree] at hm
+  · -- L2: sqrtf of a sum of at most 2^67 is at most 8·2^34
+    have hxx : x * x ≤ 4294967296 * 4294967296 := by
+      have : x * x = rabs x * rabs x := by unfold rabs; split <;> ring
+      rw [this]; exact mul_le_mul hx hx ax (by norm_num)
+    have hyy : y * y ≤ 4294967296 * 4294967296 := by
+      have : y * y = rabs y * rabs y := by unfold rabs; split <;> ring
+      rw [this]; exact mul_le_mul hy hy ay (by norm_num)
+    obtain ⟨xx, h1, xx0, xxB⟩ := fin32_ok "norm L2: x * x is inf" (x * x) (4294967296 * 4294967296)
+      (mul_self_nonneg x) hxx (by rw [hf]; norm_num)
+    obtain ⟨yy, h2, yy0, yyB⟩ := fin32_ok "norm L2: y * y is inf" (y * y) (4294967296 * 4294967296)
+      (mul_self_nonneg y) hyy (by rw [hf]; norm_num)
+    obtain ⟨v, hv, v0, vB⟩ := fin32_ok "norm L2: x * x + y * y is inf" (xx + yy) (4 * (4294967296 * 4294967296))
+      (by linarith) (by linarith) (by rw [hf]; norm_num)
+    have hs := f32sqrt_le (q := v) (B := 17179869184) v0 (by norm_num) (by linarith)
+    refine ⟨f32sqrt v, ?_, f32sqrt_nonneg v, by simp [CostModel.linear]; linarith⟩
+    simp only [normC, andThen, h1, h2, hv]
   · -- LInf
     refine ⟨rmax (rabs x) (rabs y), rfl, rmax_nonneg_left ax, ?_⟩
     simp [CostModel.linear]
@@ -516,11 +526,10 @@ lemma normC_finite (m : CostModel) (hm : m.sqrtFree = true) (x y : Rat)
       (mul_self_nonneg _) hzz (by rw [hf]; norm_num)
     exact ⟨v, hv, v0, by simp [CostModel.linear]; linarith⟩
 
-/-- **No `float` of `reoptimize`'s cost evaluation overflows to infinity on the C07 domain** (cost
-models without `sqrtf`): bin centres and cell targets of magnitude at most `2^30` (the placement area is
+/-- **No `float` of `reoptimize`'s cost evaluation overflows to infinity on the C07 domain**: bin centres and cell targets of magnitude at most `2^30` (the placement area is
 within `2^22`, `GlobalPlacer::checkFinitePlacement` keeps the targets below `2^29`), penalty factor in
-`[0, 1]` for the L1 / LInf models and `0` for the squared ones, as `GlobalPlacer` sets it. -/
-theorem binCellCostC_finite (m : CostModel) (hm : m.sqrtFree = true) (qf bx bY cx cy : Rat)
+`[0, 1]` for the L1 / L2 / LInf models and `0` for the squared ones, as `GlobalPlacer` sets it. -/
+theorem binCellCostC_finite (m : CostModel) (qf bx bY cx cy : Rat)
     (hq0 : 0 ≤ qf) (hq1 : qf ≤ 1) (hq : m.linear = false → qf = 0)
     (hbx : rabs bx ≤ 1073741824) (hby : rabs bY ≤ 1073741824)
     (hcx : rabs cx ≤ 1073741824) (hcy : rabs cy ≤ 1073741824) :
@@ -534,7 +543,7 @@ theorem binCellCostC_finite (m : CostModel) (hm : m.sqrtFree = true) (qf bx bY c
     (by rw [hf]; norm_num)
   obtain ⟨dy, hdy, dyB⟩ := fin32_ok_abs "reoptimize: by - cy is inf" (bY - cy) 2147483648 (hsub bY cy hby hcy)
     (by rw [hf]; norm_num)
-  obtain ⟨d, hd, d0, dB⟩ := normC_finite m hm dx dy (by linarith) (by linarith)
+  obtain ⟨d, hd, d0, dB⟩ := normC_finite m dx dy (by linarith) (by linarith)
   unfold binCellCostC
   simp only [andThen, hdx, hdy]
   unfold distanceC
@@ -543,15 +552,15 @@ theorem binCellCostC_finite (m : CostModel) (hm : m.sqrtFree = true) (qf bx bY c
   | true =>
     rw [hl] at dB
     simp only [if_true] at dB
-    have hqd : qf * d ≤ 17179869184 := by
+    have hqd : qf * d ≤ 137438953472 := by
       have := mul_le_mul hq1 dB d0 (by norm_num : (0 : Rat) ≤ 1)
       linarith
-    obtain ⟨qd, h1, qd0, qdB⟩ := fin32_ok "distance: (float)quadraticPenaltyFactor * d is inf" (qf * d) 17179869184
+    obtain ⟨qd, h1, qd0, qdB⟩ := fin32_ok "distance: (float)quadraticPenaltyFactor * d is inf" (qf * d) 137438953472
       (mul_nonneg hq0 d0) hqd (by rw [hf]; norm_num)
-    obtain ⟨f, h2, f0, fB⟩ := fin32_ok "distance: 1.0f + q * d is inf" (1 + qd) 34359738369
+    obtain ⟨f, h2, f0, fB⟩ := fin32_ok "distance: 1.0f + q * d is inf" (1 + qd) 274877906945
       (by linarith) (by linarith) (by rw [hf]; norm_num)
-    have hdf : d * f ≤ 17179869184 * 68719476738 := mul_le_mul dB (by linarith) f0 (by norm_num)
-    obtain ⟨v, h3, _, _⟩ := fin32_ok "distance: d * (1.0f + q * d) is inf" (d * f) (17179869184 * 68719476738)
+    have hdf : d * f ≤ 137438953472 * 549755813890 := mul_le_mul dB (by linarith) f0 (by norm_num)
+    obtain ⟨v, h3, _, _⟩ := fin32_ok "distance: d * (1.0f + q * d) is inf" (d * f) (137438953472 * 549755813890)
       (mul_nonneg d0 f0) hdf (by rw [hf]; norm_num)
     rw [h1]; simp only []; rw [h2]; simp only []; exact ⟨v, h3⟩
   | false =>
@@ -579,7 +588,7 @@ lemma mapC_total {α β : Type} (f : α → Except Fault β) :
     obtain ⟨r, hr⟩ := ih (fun x hx => h x (by simp [hx]))
     exact ⟨b :: r, by unfold mapC; rw [hb, hr]⟩
 
-theorem reoptCostsC_finite (m : CostModel) (hm : m.sqrtFree = true) (qf : Rat) (bins cells : List (Rat × Rat))
+theorem reoptCostsC_finite (m : CostModel) (qf : Rat) (bins cells : List (Rat × Rat))
     (hq0 : 0 ≤ qf) (hq1 : qf ≤ 1) (hq : m.linear = false → qf = 0)
     (hb : ∀ b, b ∈ bins → rabs b.1 ≤ 1073741824 ∧ rabs b.2 ≤ 1073741824)
     (hc : ∀ c, c ∈ cells → rabs c.1 ≤ 1073741824 ∧ rabs c.2 ≤ 1073741824) :
@@ -589,7 +598,7 @@ theorem reoptCostsC_finite (m : CostModel) (hm : m.sqrtFree = true) (qf : Rat) (
   intro b hb'
   apply mapC_total
   intro c hc'
-  exact binCellCostC_finite m hm qf b.1 b.2 c.1 c.2 hq0 hq1 hq (hb b hb').1 (hb b hb').2 (hc c hc').1 (hc c hc').2
+  exact binCellCostC_finite m qf b.1 b.2 c.1 c.2 hq0 hq1 hq (hb b hb').1 (hb b hb').2 (hc c hc').1 (hc c hc').2
 
 /-! ### the decidable form of the domain -/
 
